@@ -17,6 +17,7 @@ from fsmc.design import MachineryError
 import vlog
 from checks import c01_lib as L
 from checks import c01_grammar as G
+from checks import c01_corpus as K
 
 PROPERTY = "C01"
 LEVEL = "translation_validation"
@@ -62,6 +63,21 @@ def configs(tier):
                 continue
             for io in (("int", "io") if tier == "thorough" else ("int",) if cls not in ("arith", "lhs", "constblk") else ("int", "io")):
                 cfgs.append((f"g.{cls}.{G.icfg_label(ic)}.{io}", "comb", cls, ic, io == "io"))
+    # sequential grammar programs
+    for kind in G.SEQ_KINDS:
+        for ic in G.seq_icfgs(kind, tier):
+            cfgs.append((f"q.{kind}.{G.icfg_label(ic)}", "seq", kind, ic, True))
+    # memory port grammar: reset low (the memory template has no reset) + a few variants with reset pulses
+    for v in G.mem_variants(tier):
+        cfgs.append((f"m.{v}", "mem", v, False))
+        if v in ("rw.wf.g0.re0", "rw.rf.g0.re0", "rw.nc.g4.re1", "dual.rf"):
+            cfgs.append((f"m.{v}.rst", "mem", v, True))
+    # corpus of real cores; cores with memories additionally without reset pulses (see sim.memory_reset)
+    for n, (b, clocks, t) in K.CORPUS.items():
+        if t == "quick" or tier == "thorough":
+            cfgs.append((f"core.{n}", "core", n, True))
+            if n in K.WITH_MEMORY:
+                cfgs.append((f"core.{n}.norst", "core", n, False))
     return cfgs
 
 
@@ -70,7 +86,93 @@ def run_config(cfg, seed, tier):
     kind = cfg[1]
     if kind == "comb":
         return run_comb(cfg, tier)
+    if kind in ("seq", "mem", "core"):
+        return run_product(cfg, seed, tier)
     raise MachineryError(f"unknown configuration kind {kind}")
+
+
+CAPS = {"quick": dict(seq=150_000, mem=150_000, core=40_000, walk=2_000),
+        "thorough": dict(seq=1_500_000, mem=1_000_000, core=400_000, walk=20_000)}
+
+
+def product_program(cfg):
+    """-> (mk, alphabet builder, use reset)"""
+    kind = cfg[1]
+    if kind == "seq":
+        return G.seq_program(cfg[2], cfg[3])
+    if kind == "mem":
+        return G.mem_program(cfg[2], cfg[3])
+    return K.core_program(cfg[2])
+
+
+def _alphabet(cfg, info):
+    kind, with_rst = cfg[1], cfg[-1]
+    menus = [list(m) for m in info["menus"]]
+    nr = info.get("n_rst", sum(1 for cd in info["clock_domains"] if cd.rst is not None)) if kind != "mem" else 0
+    if not with_rst and nr:
+        for k in range(len(menus) - nr, len(menus)):
+            menus[k] = [0]
+    if kind == "core":
+        info2 = dict(info, menus=menus)
+        alpha = K.bfs_alphabet(info2)
+        if not with_rst:
+            alpha = sorted({tuple(0 if k >= len(menus) - nr else x for k, x in enumerate(v)) for v in alpha})
+        return alpha, menus
+    return list(itertools.product(*menus)), menus
+
+
+def run_product(cfg, seed, tier, only_trace=None):
+    name, kind = cfg[0], cfg[1]
+    mk = product_program(cfg)
+    res = dict(cfg=name, exhaustive=True, violations=[], evaluations=0, distinct=0, programs=1, disagreements=0, states=0,
+               transitions=0, conformed=0)
+    _, info = mk()
+    alphabet, menus = _alphabet(cfg, info)
+    clocks = info["clocks"]
+    cc = [(clocks[0],)] if len(clocks) == 1 else [(clocks[0],), (clocks[1],), tuple(clocks)]
+    caps = CAPS[tier]
+    try:
+        st, mism, A, B = L.explore(mk, alphabet, cc, caps[kind], seed=seed, walk=caps["walk"] if kind == "core" else 0, walk_menus=menus)
+    except (vlog.VlogSyntaxError,) as e:
+        res["violations"].append(dict(rule="printer.illegal_verilog", msg=f"emitted text rejected: {e}", detail=dict(error=str(e))))
+        return res
+    except vlog.VlogUnsupported as e:
+        res.update(exhaustive=False, unsupported=str(e))
+        return res
+    res.update(states=st["states"], transitions=st["transitions"], conformed=st["conformed"], exhaustive=st["exhaustive"],
+               evaluations=st["transitions"] + st["walk_cycles"], distinct=st["states"], walk_cycles=st["walk_cycles"], bfs_depth=st["depth"],
+               alphabet=len(alphabet), signals_compared=len(info["observe"]), memories_compared=len(info["memories"]),
+               mismatching_transitions=st["mismatching_transitions"])
+    if not st["exhaustive"]:
+        res["cap_hit"] = True
+    if B.sim.const_only_blocks:
+        res["const_only_always_blocks"] = len(B.sim.const_only_blocks)
+    in_names = B.in_names
+    res["sample"] = dict(inputs=dict(zip(in_names, alphabet[len(alphabet) // 2])), clocks=list(cc[-1]), signals=B.obs_names[:6])
+    if not mism:
+        return res
+    clf = L.Classifier(mk, has_mem_multiclock=bool(info["memories"]))
+    byrule = {}
+    for x in mism:
+        rules = clf.classify(x.trace, x.which, x.S, x.V)
+        res["disagreements"] += len(x.which)
+        for w, rule in rules.items():
+            lab = f"mem{w[1]}[{w[2]}]" if isinstance(w, tuple) else B.obs_names[w]
+            byrule.setdefault(rule, {}).setdefault(lab, (x, w))
+    res["classes"] = {r: len(v) for r, v in byrule.items()}
+    if len(mism) < st["mismatching_transitions"]:
+        res["exhaustive"] = False
+        res["unclassified_mismatching_transitions"] = st["mismatching_transitions"] - len(mism)
+    for rule, d in sorted(byrule.items()):
+        lab, (x, w) = sorted(d.items(), key=lambda kv: (len(kv[1][0].trace), kv[0]))[0]
+        tr = [dict(inputs=dict(zip(in_names, vals)), clocks=list(cds) if cds else None) for vals, cds in x.trace]
+        vl = _verilog_body(B.text, [lab])[:14] if not isinstance(w, tuple) else _verilog_body(B.text, [B.mem_names[w[1]]])[:14]
+        det = dict(signal=lab, S=x.S[w], V=x.V[w], phase=x.phase, raw_trace=[[list(v), list(c) if c else None] for v, c in x.trace],
+                   verilog=vl, signals_in_class=sorted(d)[:12], n_signals_in_class=len(d))
+        res["violations"].append(dict(
+            rule=rule, msg=f"{lab}: simulator {x.S[w]} != Verilog {x.V[w]} after {len(x.trace)} step(s) ({x.phase}); {len(d)} signal(s) in this class",
+            trace=tr, detail=det))
+    return res
 
 
 def _verilog_body(text, names=None):
